@@ -106,7 +106,7 @@ ADDENDA = {
     "C11": "Also: per-direction reachability (one_direction_reachable; reconverge_no_trap in all three networks).",
     "C12": "Also: explicit 32-bit and chunk-size boundary corpus through whole connections.",
     "C13": "Also: real link layer in the world; parked_open_data_close, watermark_survives_connection_loss, resent_burst_ignored / resent_record_ignored; generated flags for FIFO drain and watermark.",
-    "C14": "Environment includes hostile mailbox participants: unusable PAKE bodies and undecryptable bytes under any phase from a third side, at any time (DESIGN 11.7); this exposed the defect repaired by fix c4870d9.",
+    "C14": "Environment includes hostile mailbox participants: unusable PAKE bodies and undecryptable bytes under any phase from a third side, at any time (DESIGN 11.7); this exposed the defect repaired by fix 8eac7fb.",
     "C15": "Also: subchannel lifecycle (generated SubChannel table) in the Inbound model: resume_forwarded_in_every_state, local_close_keeps_pause, plain-forwarder flags.",
     "C16": "Also: late timer firing (`stall`) — responsive_never_dropped for all stall sequences; per-connection loss reports; second world with the real Connector/DilatedConnectionProtocol.",
     "C17": "Also: timer handle state (none/pending/fired) and timer_handle_safe; silent-peer close corpus with the real DelayedCall.",
